@@ -756,6 +756,8 @@ CORNERS = [
     '(* a 2))(assert (= (f x) 3))',
     '(push)(declare-fun x () Int)(assert (> x 0))(pop)'
     '(declare-fun x () Int)(assert (< x 0))',
+    '(declare-fun x () Int)(assert (> x 0))(push 0)(assert (> x 1))(pop 0)'
+    '(assert (> x 2))(push 2)(assert (> x 3))(pop 1)(pop 0)(assert (> x 4))',
     '(declare-sort S 0)(declare-fun c () S)(declare-fun d () S)'
     '(assert (distinct c d))',
     '(define-sort MyInt () Int)(declare-fun x () MyInt)(assert (> x 0))',
